@@ -54,6 +54,7 @@ class Registry:
         self.user_classes = {}      # synthetic user classes: name -> base
         self.spec_modules = []
         self.scans = {}
+        self.frame_tags = {}        # field name / container type -> properties that own its frame obligations
 
     def contract(self, key, **kw):
         full = key + ('#' + kw['variant'] if kw.get('variant') else '')
